@@ -44,3 +44,9 @@ package revolut2
 //@   loop 1 invariant [C06] [C13] @date: forall i int :: {targ("Add", 0, i)} entry(tlen()) <= i && i < tlen() ==> dyn(targ("Add", 0, i), "*assertion.Assertion").Date == $range[i - entry(tlen())].Date
 //@   loop 1 invariant [C06] [C13] @com: forall i int :: {targ("Add", 0, i)} entry(tlen()) <= i && i < tlen() ==> dyn(targ("Add", 0, i), "*assertion.Assertion").Balances[0].Commodity == $range[i - entry(tlen())].Commodity
 //@   loop 1 invariant forall i int :: {targ("Add", 0, i)} entry(tlen()) <= i && i < tlen() ==> live(dyn(targ("Add", 0, i), "*assertion.Assertion")) && live(dyn(targ("Add", 0, i), "*assertion.Assertion").Balances)
+//
+// parseBooking (the per-row function) is NOT under contract: it slices the "Completed Date" column with
+// [:10] before any length check, so the safety obligation of that slice expression cannot discharge for
+// arbitrary records (a statement with a shorter, non-empty completed date panics there); no listed property
+// covers malformed statements of an importer, and the contract language has no way to assume a record shape.
+
